@@ -795,12 +795,25 @@ func quoteString(s string) string {
 	return string(append(q, '\''))
 }
 
+// Children returns the values of the map literal in the order of their keys.
+// (The order of Go's map iteration would let passes that stop at the first
+// problem report a different one from run to run.)
 func (n *MapLiteralNode) Children() []Node {
 	var nodes []Node
-	for _, v := range n.Items {
-		nodes = append(nodes, v)
+	for _, k := range n.Keys() {
+		nodes = append(nodes, n.Items[k])
 	}
 	return nodes
+}
+
+// Keys returns the keys of the map literal, sorted.
+func (n *MapLiteralNode) Keys() []string {
+	var keys = make([]string, 0, len(n.Items))
+	for k := range n.Items {
+		keys = append(keys, k)
+	}
+	sort.Strings(keys)
+	return keys
 }
 
 // Data References ----------
